@@ -24,7 +24,7 @@ ASSUMPTIONS = [
     "children or authentication/recordDelimiter children that differ in what they carry",
     "'any tree built from known element names' excludes unknown names and non-text content, not invalid structure",
 ]
-REQUIRED = ["empty_descriptions_planted", "tree_calls", "node_calls", "valid_trees_compared", "warnings_compared", "prior_entries_preserved_checks", "title_at_threshold",
+REQUIRED = ["re_evaluated_after_in_place_edit", "empty_descriptions_planted", "tree_calls", "node_calls", "valid_trees_compared", "warnings_compared", "prior_entries_preserved_checks", "title_at_threshold",
             "abstract_at_threshold", "keywords_at_threshold"]
 EXHAUSTIVE = {"quick": False, "thorough": False}
 
@@ -268,6 +268,22 @@ def run(ctx, params):
         root = gen.valid_tree(rng.choice(["eml", "eml", "dataset", "dataset", "dataTable", "project", "methods"]), rng, rng.choice([20, 60, 150]))
         tweak(rng, root, ctx)
         ctx.case(judge, ctx, root, "valid+threshold-tweaks", True)
+        if i % 3 == 0:
+            # the same node objects, edited in place after they were evaluated, evaluated again
+            edited = False
+            for x in treegen.all_nodes(root):
+                if x.name == "para" and x.parent is not None and rng.random() < 0.6:
+                    x.content = rng.choice([None, words(rng, rng.choice([1, 19, 20, 25]))])
+                    edited = True
+                elif x.name == "title" and x.content and rng.random() < 0.5:
+                    x.content = words(rng, rng.choice([2, 4, 5, 7]))
+                    edited = True
+                elif x.name == "keywordSet" and rng.random() < 0.3:
+                    x.add_child(Node("keyword", content="added"), 0)
+                    edited = True
+            if edited:
+                ctx.count("re_evaluated_after_in_place_edit")
+                ctx.case(judge, ctx, root, "valid+threshold-tweaks, edited in place and evaluated again", True)
         if i % 9 == 0:
             plain = snapshot.to_plain(root)
             ctx.later(lambda c, p=plain: judge(c, snapshot.from_plain(Node, p), "valid+threshold-tweaks (judged again at the end)", True))
